@@ -343,6 +343,7 @@ fn cmd_validate(m: BTreeMap<String, String>) -> i32 {
         kind: exec::WrittenKind::Sfnt,
         glyphs: None,
         source_ok: None,
+        source_advance: None,
     };
     for (k, v) in sfnt_check::validate(&w, true, true) {
         println!("{}: {}", k, v);
